@@ -1,4 +1,5 @@
 import MesaModel.Proofs.LegacyC08
+import MesaModel.Proofs.LegacyNetState
 
 /-!
 # C08 — legacy grids: pos, cell contents, empties and empty_mask never disagree
@@ -124,7 +125,91 @@ theorem C08_distance_is_torus_metric (g : Grid) (hw : 0 < g.w) (hh : 0 < g.h) (h
     g.distSq (p.1 % g.w, p.2 % g.h) q = g.distSq p q :=
   ⟨distSq_torus_spec g hw hh ht p q, distSq_wrap g hw hh ht p q⟩
 
+/-! ## NetworkGrid as a space of its own (beyond the four classes the statement names: same agreement, same style)
+
+`Net` (Model/LegacyNbhd.lean) models `NetworkGrid.place_agent / remove_agent / move_agent` (after the NG1 repair)
+and the reads `is_cell_empty`, `get_cell_list_contents`, `get_all_cell_contents`, `agents`.  `NetInv` is the
+agreement of `agent.pos` with the node lists; `NHistOk` asks only that `place_agent` is called for an unplaced
+agent (on any node id — also one that does not exist: rejected); moves and removals are unrestricted. -/
+
+/-- **All NetworkGrid histories keep `pos` and the node lists in agreement**, for every graph and every history
+    of place / remove / move (targets that exist or not, placed or unplaced agents) -/
+theorem C08_network_views_agree_all_histories (n : Nat) (edges : List (Nat × Nat)) (ops : List NOp)
+    (hok : NHistOk (Net.init n edges) ops) : NetInv (nrun (Net.init n edges) ops) :=
+  nrun_inv _ ops (netInv_init n edges) hok
+
+/-- one call keeps the agreement (the induction step, for any state that satisfies it) -/
+theorem C08_network_step_keeps_agreement (t : Net) (hi : NetInv t) (op : NOp) (hok : NOpOk t op) : NetInv (nstep t op).1 :=
+  nstep_inv t op hi hok
+
+/-- `pos` is the one node whose list holds the agent — a node of the graph —, `None` exactly when no list does -/
+theorem C08_network_pos_is_the_one_node (t : Net) (hi : NetInv t) (a : Aid) :
+    (∀ v, t.pos a = some v → v < t.n ∧ a ∈ t.content v ∧ ∀ u, a ∈ t.content u → u = v) ∧
+    (t.pos a = none ↔ ∀ u, a ∉ t.content u) := by
+  refine ⟨fun v hv => ?_, ?_⟩
+  · have hm := (hi.pos_content a v).mp hv
+    refine ⟨hi.in_net v (List.ne_nil_of_mem hm), hm, fun u hu => ?_⟩
+    have := (hi.pos_content a u).mpr hu
+    rw [hv] at this; exact (Option.some.inj this).symm
+  · constructor
+    · intro h u hu; have := (hi.pos_content a u).mpr hu; rw [h] at this; cases this
+    · intro h
+      cases hp : t.pos a with
+      | none => rfl
+      | some v => exact absurd ((hi.pos_content a v).mp hp) (h v)
+
+/-- `is_cell_empty` says exactly whether a node's list is empty and raises KeyError exactly for a node that
+    does not exist; `get_all_cell_contents` and `agents` list every placed agent exactly once and nobody else,
+    in node order -/
+theorem C08_network_emptiness_and_contents_views (t : Net) (hi : NetInv t) :
+    (∀ v, v < t.n → t.isCellEmpty v = .ok (t.content v).isEmpty) ∧ (∀ v, ¬ v < t.n → t.isCellEmpty v = .error .key) ∧
+    t.getAllCellContents.Nodup ∧ (∀ a, a ∈ t.getAllCellContents ↔ t.pos a ≠ none) ∧
+    t.agentsList = t.getAllCellContents ∧ t.getAllCellContents = t.allNodes.flatMap t.content :=
+  ⟨fun v hv => by simp [Net.isCellEmpty, hv], fun v hv => by simp [Net.isCellEmpty, hv], net_all_spec t hi⟩
+
+/-- **`move_agent` lands on the target node or is rejected with nothing changed**: a placed agent moved to a
+    node of the graph ends in that node's list (at its end), has left its old list, `pos` is the target and no
+    other agent or node is touched; a node that does not exist (NG1) or an unplaced agent gives KeyError and
+    the state is untouched -/
+theorem C08_network_move_lands_or_rejects (t : Net) (hi : NetInv t) (a : Aid) (v : Nat) :
+    (∀ u, t.pos a = some u → v < t.n →
+      (t.move a v).2 = .ok ∧ (t.move a v).1.pos a = some v ∧ (∀ b, b ≠ a → (t.move a v).1.pos b = t.pos b) ∧
+      (t.move a v).1.content v = (t.content v).erase a ++ [a] ∧
+      (u ≠ v → (t.move a v).1.content u = (t.content u).erase a) ∧
+      ∀ x, x ≠ u → x ≠ v → (t.move a v).1.content x = t.content x) ∧
+    (¬ v < t.n → t.move a v = (t, .err .key)) ∧
+    (t.pos a = none → t.move a v = (t, .err .key)) :=
+  ⟨fun u hp hv => net_move_placed t hi a u v hp hv, net_move_missing t a v, net_move_unplaced t a v⟩
+
+/-- `place_agent` appends to the node's list and sets `pos` (KeyError, nothing changed, for a node that does
+    not exist); `remove_agent` takes the agent out of its node's list and clears `pos` (KeyError, nothing
+    changed, for an agent that is not in the space) -/
+theorem C08_network_place_remove (t : Net) (hi : NetInv t) (a : Aid) :
+    (∀ v, v < t.n → (t.place a v).2 = .ok ∧ (t.place a v).1.pos a = some v ∧ (t.place a v).1.content v = t.content v ++ [a] ∧
+      (∀ b, b ≠ a → (t.place a v).1.pos b = t.pos b) ∧ ∀ u, u ≠ v → (t.place a v).1.content u = t.content u) ∧
+    (∀ v, ¬ v < t.n → t.place a v = (t, .err .key)) ∧
+    (∀ v, t.pos a = some v → (t.remove a).2 = .ok ∧ (t.remove a).1.pos a = none ∧
+      (∀ b, b ≠ a → (t.remove a).1.pos b = t.pos b) ∧
+      (t.remove a).1.content v = (t.content v).erase a ∧ ∀ u, u ≠ v → (t.remove a).1.content u = t.content u) ∧
+    (t.pos a = none → t.remove a = (t, .err .key)) :=
+  ⟨fun v hv => ⟨(net_place_res t a v).1 hv, (net_place_pos t a v hv).1, (net_place_content t a v hv).1,
+      (net_place_pos t a v hv).2, (net_place_content t a v hv).2⟩,
+   fun v hv => (net_place_res t a v).2 hv, fun v hp => net_remove_placed t hi a v hp, net_remove_unplaced t a⟩
+
 /-! ## non-vacuity and witnesses -/
+
+/-- a NetworkGrid history within the quantifier with three rejected calls (missing node twice, unplaced agent) -/
+def demoNetOps : List NOp := [.place 0 1, .place 1 1, .move 0 7, .place 2 9, .move 0 2, .remove 2, .move 1 1, .remove 0]
+
+example : NHistOk (Net.init 3 [(0, 1), (1, 2)]) demoNetOps := by
+  simp [demoNetOps, NHistOk, NOpOk, nstep, Net.place, Net.move, Net.init, updA]
+
+/-- NG1 witness (the defect before its repair left the agent in no node): the move to a node that does not
+    exist is rejected and the agent stays where it was -/
+example : (nstep (nrun (Net.init 3 []) [.place 0 1]) (.move 0 7)).2 = .err .key := by decide
+example : (nrun (Net.init 3 []) [.place 0 1, .move 0 7]).pos 0 = some 1 := by decide
+example : (nrun (Net.init 3 []) [.place 0 1, .move 0 7]).content 1 = [0] := by decide
+example : (nrun (Net.init 3 []) [.place 0 1, .place 1 1, .move 0 1]).content 1 = [1, 0] := by decide
 
 /-- the hypotheses are satisfiable by a non-trivial history: `empties` read mid-history, a wrapped move, a
     rejected move, both random movers -/
